@@ -95,6 +95,16 @@ class MemberCall(Rule):
         return "".join(out)
 
 
+class TaskHandles(Rule):
+    """every local declared `task_handle NAME` (lowered from `task_description* NAME`): `NAME->` -> `TASKP(NAME)->`"""
+    n = None
+
+    def apply(self, text):
+        for name in set(re.findall(r"\btask_handle\s+(\w+)\s*=", text)):
+            text = re.sub(r"(?<![\w.>])%s\s*->" % re.escape(name), "TASKP(%s)->" % name, text)
+        return text
+
+
 def _counter(m):
     recv = m.group(2) or "self"
     return "atomic_%s_%s(%s)" % ("inc" if m.group(1) == "++" else "dec", m.group(3), recv)
@@ -129,10 +139,12 @@ H_COUNTERS = [
         lambda m: "atomic_load_%s(%s)" % (m.group(2), m.group(1) or "self"), None),
 ]
 H_TASKS = [
-    Sub(r"\btask_description\s*\*", "struct task_description *", None),
+    Sub(r"\btask_description\s*\*\s*(\w+)\s*=\s*nullptr\s*;", r"task_handle \1 = 0;", None),     # task_description* -> handle (hops.h)
+    Sub(r"\btask_description\s*\*\s*(\w+)\s*=", r"task_handle \1 =", None),
+    TaskHandles(),
     Sub(r"\bthread_init_data\s*&\s*(\w+)\s*=\s*([^;]+);", r"struct thread_init_data *\1 = &(\2);", None),     # reference local
     Sub(r"\bdata\.", "data->", None),                                                                          # reference parameter / local
-    Sub(r"\b(\w+)->~task_description\(\)", r"task_destroy(\1)", None),
+    Sub(r"\bTASKP\((\w+)\)->~task_description\(\)", r"task_destroy(\1)", None),
     MemberCall("task_description_alloc_", "deallocate", "task_dealloc({0}, {1})"),
     MemberCall("task_description_alloc_", "allocate", "task_alloc({0})"),
     Sub(r"\bnew\s*\(\s*(\w+)\s*\)\s*task_description\s*\{([^{}]*)\}", r"task_construct(\1, \2)", None),      # placement new
@@ -166,7 +178,7 @@ ADDNEW_RULES = [H_NS, H_STATE_ENUM, H_ERR_ENUM] + H_LOCK_REF("lk") + H_TASKS + H
     HCall0(r"(?<![\w.>])schedule_thread", _sched),
 ]
 ADDNEW_LOOP = """
-__CPROVER_assigns(add_count, added, task, __CPROVER_object_whole(self), __CPROVER_object_whole(addfrom), lk->owns, HOPS_GHOST)
+__CPROVER_assigns(add_count, added, task, lk->owns, g_q0, g_q1, G)
 __CPROVER_loop_invariant(ADDNEW_INV(self, addfrom))
 """
 HOPS_UNITS = [
